@@ -1,6 +1,7 @@
 package replay
 
 import (
+	"crypto/sha256"
 	"bytes"
 	"encoding/hex"
 	"encoding/json"
@@ -71,6 +72,13 @@ type tbSign struct {
 	// (right passphrase) after an output was edited
 	WrongAfterErr bool `json:"wrongAfterErr"`
 	ResignOK      bool `json:"resignOK"`
+	// private keys the keystore still holds in memory after the wrong attempt / after the successful one, and a
+	// request that fails half way (right passphrase, the first inputs sign, the last input is unknown to the wallet)
+	CachedAfterWrong int  `json:"cachedAfterWrong"`
+	CachedAfterRight int  `json:"cachedAfterRight"`
+	PartialTried     bool `json:"partialTried"`
+	PartialErr       bool `json:"partialErr"`
+	PartialCached    int  `json:"partialCached"`
 }
 type tbLine struct {
 	Kind   string   `json:"kind"`
@@ -310,6 +318,41 @@ func (w *World) TxBuildBattery(exp *Expect, seed int64, sweep bool) (lines []jso
 				finish(l, raw, f, err, false, ci)
 			})
 		}
+		// explicit inputs worth more than the requested outputs, fee taken from the recipients: one recipient bearing
+		// the fee, and two recipients of whom one bears it - the change takes what is left, nobody pays a share twice
+		for ci, c := range coinsNow() {
+			if !(c.Mature && (c.Class == "std" || c.Class == "cb") && !c.Sbu && !c.Reserved) || c.Amt < 4*Unit {
+				continue
+			}
+			h, vout, ok := w.outpointOf(c.ID)
+			if !ok {
+				continue
+			}
+			for variant := 0; variant < 2; variant++ {
+				outs := []tbOut{{To: "S1", Amt: c.Amt / 2}}
+				if variant == 1 {
+					outs = []tbOut{{To: "S1", Amt: c.Amt / 4}, {To: "S2", Amt: c.Amt / 4}}
+				}
+				change := ""
+				if (ci+variant)%2 == 1 {
+					change = name + ":1"
+				}
+				l := &tbLine{Kind: "manual", Wallet: name, Coins: coinsNow(), Req: tbReq{Outs: outs, Fee: 0, Change: change, Subfee: []string{"S1"}, Inputs: []string{c.ID}, Valid: true}}
+				protect(l, func() {
+					amounts := map[string]massutil.Amount{}
+					for _, o := range outs {
+						amounts[resolveAddr(o.To)] = mustAmount(o.Amt)
+					}
+					changeA := ""
+					if change != "" {
+						changeA = resolveAddr(change)
+					}
+					raw, f, err := w.W.CreateRawTransaction([]*masswallet.TxIn{{TxId: h.String(), Vout: vout}}, amounts, 0, changeA,
+						map[string]struct{}{resolveAddr("S1"): {}})
+					finish(l, raw, f, err, false, ci+variant)
+				})
+			}
+		}
 		// explicit inputs: every free ordinary coin at once (sibling outputs of one previous transaction,
 		// several addresses, several amounts in ONE signing call)
 		{
@@ -431,12 +474,30 @@ func (w *World) signAndVerify(l *tbLine, mtx *wire.MsgTx, wallet string, flagIdx
 	}
 	_, werr := w.W.SignRawTx([]byte("wrong"+PrivPass(wallet)), flag, &cp)
 	l.Sign.WrongErr = werr != nil
+	l.Sign.CachedAfterWrong = w.cachedKeys(wallet)
 	for _, in := range cp.TxIn {
 		if len(in.Witness) > 0 {
 			l.Sign.WrongWitness = true
 		}
 	}
 	signed, rerr := w.W.SignRawTx([]byte(PrivPass(wallet)), flag, mtx)
+	l.Sign.CachedAfterRight = w.cachedKeys(wallet)
+	if rerr == nil {
+		// the same request with one more input that the wallet knows nothing about, placed last
+		pf := wire.NewMsgTx()
+		for _, in := range mtx.TxIn {
+			pf.AddTxIn(wire.NewTxIn(&in.PreviousOutPoint, nil))
+			pf.TxIn[len(pf.TxIn)-1].Sequence = in.Sequence
+		}
+		unknown := wire.Hash(sha256.Sum256([]byte("verif: no such transaction " + wallet)))
+		pf.AddTxIn(wire.NewTxIn(wire.NewOutPoint(&unknown, 0), nil))
+		for _, o := range mtx.TxOut {
+			pf.AddTxOut(wire.NewTxOut(o.Value, o.PkScript))
+		}
+		pf.LockTime = mtx.LockTime
+		_, perr := w.W.SignRawTx([]byte(PrivPass(wallet)), "ALL", pf)
+		l.Sign.PartialTried, l.Sign.PartialErr, l.Sign.PartialCached = true, perr != nil, w.cachedKeys(wallet)
+	}
 	if rerr != nil {
 		l.Sign.RightErr = rerr.Error()
 		return
@@ -483,6 +544,21 @@ func (w *World) signAndVerify(l *tbLine, mtx *wire.MsgTx, wallet string, flagIdx
 			l.Sign.ResignOK = false
 		}
 	}
+}
+
+// cachedKeys counts the addresses of the wallet whose private key the keystore holds in memory right now.
+func (w *World) cachedKeys(wallet string) int {
+	am, err := w.W.VerifKeystoreManager().GetAddrManagerByAccountID(w.Wals[wallet].ID)
+	if err != nil {
+		return -1
+	}
+	n := 0
+	for _, ma := range am.ManagedAddresses() {
+		if ma.PrivKey() != nil {
+			n++
+		}
+	}
+	return n
 }
 
 // engineOK runs every input through the consensus script engine against the output it spends.
